@@ -268,6 +268,12 @@ func (e *Engine) VerifyFunc(fn *ssa.Function, fc *FuncContract) (v *FnVerifier) 
 		budget := v.heap(st, v.ghostKey("inputBudget", "Int"))
 		v.smt.assert(and("(<= 0 "+budget+")", "(< "+budget+" 1099511627776)")) // inputs are shorter than 2^40 bytes
 	}
+	// ghost counters of this function start at zero and are materialised up front (they survive havoc)
+	for _, t := range strings.Fields(fc.Opts["track"]) {
+		v.setHeap(st, v.ghostKey("ncalls!"+t, "Int"), "0")
+	}
+	nk := v.ghostKey("nrecv", "(Array Int Int)")
+	v.setHeap(st, nk, v.heap(st, nk))
 	o := v.addObl(st, "cover", "entry", "false", "precondition is satisfiable", fc.Serves, fn.Pos())
 	o.Cover = true
 	fr.run(st, args)
@@ -284,7 +290,7 @@ func (e *Engine) VerifyFunc(fn *ssa.Function, fc *FuncContract) (v *FnVerifier) 
 				found = true
 			}
 		}
-		if !found {
+		if !found && n >= 0 {
 			v.errs = append(v.errs, fmt.Sprintf("loop %d named in the contract does not exist", n))
 		}
 	}
